@@ -3,7 +3,7 @@ use crate::rng::Rng;
 use crate::universe::*;
 
 #[derive(Clone, Copy, PartialEq, Eq, Debug)]
-pub enum Kind { General, Soft, ConflictFree, Hints, Tight, Lazy, CycleMerge, SoftBackjump, LazyUnsat, FalseThenTrue, SoftPoison }
+pub enum Kind { General, Soft, ConflictFree, Hints, Tight, Lazy, CycleMerge, SoftBackjump, LazyUnsat, FalseThenTrue, SoftPoison, Tower }
 
 pub struct Generated { pub u: Universe, pub p: Problem }
 
@@ -20,6 +20,48 @@ fn subset(rng: &mut Rng, xs: &[u32], style: u64) -> Vec<u32> {
 }
 
 pub fn generate(rng: &mut Rng, kind: Kind) -> Generated { generate_opts(rng, kind, false) }
+
+/// A ladder of diamonds: packages x0..xN with 2-3 versions each, every version of x(i) requires a (random) two of the
+/// versions of x(i+1), so every candidate is reachable over several parents (exponentially many root-to-leaf paths over
+/// linearly many candidates); a further root requirement `z` constrains the bottom package to a version that does not
+/// exist. On its own every candidate is installable, so the renderer has to explain a large *installable* DAG with
+/// sharing - the shape on which a renderer that re-explains shared candidates blows up (C04: output bounded by the
+/// size of the conflict).
+pub fn generate_tower(rng: &mut Rng) -> Generated {
+    let mut u = Universe::default();
+    let layers = rng.range(3, 7) as usize;
+    let width = rng.range(2, 3) as usize;
+    let mut next_v = 0u32;
+    let sid = |layer: usize, k: usize| (layer * 3 + k) as u32;
+    for layer in 0..=layers {
+        let cs: Vec<u32> = (0..width).map(|k| sid(layer, k)).collect();
+        u.pkgs.insert(layer as u32, Pkg { cands: cs.clone(), hint: if rng.chance(1, 4) { Hint::All } else { Hint::None }, ..Default::default() });
+    }
+    for layer in 0..=layers {
+        for k in 0..width {
+            let reqs = if layer < layers {
+                let a = k; let b = (k + 1 + rng.below(width as u64 - 1) as usize) % width;
+                let mut m = vec![sid(layer + 1, a), sid(layer + 1, b)]; m.sort(); m.dedup();
+                u.vsets.insert(next_v, VSet { name: layer as u32 + 1, matching: m }); next_v += 1;
+                vec![Req::Single(next_v - 1)]
+            } else { vec![] };
+            u.solvs.insert(sid(layer, k), Solv { name: layer as u32, rank: k as u32, deps: Deps::Known { reqs, cons: vec![] } });
+        }
+    }
+    let z_name = layers as u32 + 1;
+    let z = sid(layers + 1, 0);
+    // nothing of the bottom package matches this version set
+    u.vsets.insert(next_v, VSet { name: layers as u32, matching: vec![] }); let none_vs = next_v; next_v += 1;
+    u.solvs.insert(z, Solv { name: z_name, rank: 0, deps: Deps::Known { reqs: vec![], cons: vec![none_vs] } });
+    u.pkgs.insert(z_name, Pkg { cands: vec![z], ..Default::default() });
+    u.vsets.insert(next_v, VSet { name: 0, matching: (0..width).map(|k| sid(0, k)).collect() }); let x0_any = next_v; next_v += 1;
+    u.vsets.insert(next_v, VSet { name: z_name, matching: vec![z] }); let z_any = next_v;
+    let mut p = Problem::default();
+    p.reqs.push(Req::Single(x0_any));
+    p.reqs.push(Req::Single(z_any));
+    if rng.chance(1, 2) { p.reqs.reverse(); }
+    Generated { u, p }
+}
 
 /// Conflicts whose graph has a `requires` cycle through merge groups: a ring of 2-3 packages whose versions all share
 /// one dependency list (next ring member + an extra that may be impossible), entered from different versions of a top
@@ -264,6 +306,7 @@ pub fn generate_soft_poison(rng: &mut Rng) -> Generated {
 
 pub fn generate_opts(rng: &mut Rng, kind: Kind, force_sparse: bool) -> Generated {
     if kind == Kind::CycleMerge { return generate_cycle_merge(rng); }
+    if kind == Kind::Tower { return generate_tower(rng); }
     if kind == Kind::SoftPoison || (kind == Kind::Soft && rng.chance(1, 12)) { return generate_soft_poison(rng); }
     if kind == Kind::FalseThenTrue { let h = rng.chance(2, 3); return generate_false_then_true(rng, h); }
     if kind == Kind::Hints && rng.chance(1, 8) { return generate_false_then_true(rng, true); }
